@@ -415,6 +415,10 @@ class Program:
                         for k, v in recover.methods_of(base_cls).items():
                             if k not in own:
                                 target.setdefault(k, v)
+                    other_tree = rtree if side == "cur" else m.tree
+                    for k, v in recover.new_inherited_methods(self, m, mod_tree, klass, other_of, other_tree).items():
+                        if k not in own:
+                            target.setdefault(k, v)
                     target["__class_names__"] = names
         c2 = recover.with_helpers(cn, fc, mc)
         r2 = recover.with_helpers(rn, fr, mr)
